@@ -1,0 +1,320 @@
+//! Verification facade, compiled only with `--cfg beetswap_verif`.
+//!
+//! Thin public wrappers around crate-private items so that an external harness can construct
+//! and drive them and read plain-data snapshots of their state. Nothing here changes the
+//! behaviour of the crate.
+
+use std::io;
+use std::sync::Arc;
+
+use asynchronous_codec::{Decoder, Encoder};
+use bytes::BytesMut;
+use cid::CidGeneric;
+use futures_util::io::{AsyncRead, AsyncWrite};
+use libp2p_core::multihash::Multihash;
+
+use crate::cid_prefix::CidPrefix;
+use crate::incoming_stream::{ClientMessage, IncomingMessage, IncomingStream, ServerMessage};
+use crate::message::Codec;
+use crate::multihasher::{Multihasher, MultihasherError, MultihasherTable};
+
+pub use crate::client::verif as client;
+pub use crate::client::SendingState;
+pub use crate::incoming_stream::verif as incoming;
+pub use crate::proto::message as proto;
+pub use crate::server::verif as server;
+pub use crate::wantlist::verif as wantlist;
+pub use crate::{ConnHandler, StreamRequester, ToBehaviourEvent, ToHandlerEvent};
+
+/// Object safe combination of the traits a substream has to implement.
+pub trait AsyncReadWrite: AsyncRead + AsyncWrite + Send + Unpin {}
+impl<T> AsyncReadWrite for T where T: AsyncRead + AsyncWrite + Send + Unpin {}
+
+/// Substream type used by the crate under `beetswap_verif`.
+pub type RawStream = Box<dyn AsyncReadWrite>;
+
+/// Virtual clock that replaces `futures_timer::Delay` and `web_time::Instant` in `client.rs`.
+pub mod clock {
+    use std::cell::Cell;
+    use std::future::Future;
+    use std::pin::Pin;
+    use std::task::{Context, Poll};
+    use std::time::Duration;
+
+    thread_local! {
+        static NOW_MS: Cell<u64> = const { Cell::new(0) };
+    }
+
+    /// Current virtual time in milliseconds.
+    pub fn now_ms() -> u64 {
+        NOW_MS.with(|n| n.get())
+    }
+
+    /// Set virtual time in milliseconds.
+    pub fn set_now_ms(ms: u64) {
+        NOW_MS.with(|n| n.set(ms))
+    }
+
+    #[derive(Debug, Clone, Copy, PartialEq, Eq, PartialOrd, Ord, Hash)]
+    pub struct Instant(pub u64);
+
+    impl Instant {
+        pub fn now() -> Instant {
+            Instant(now_ms())
+        }
+
+        pub fn elapsed(&self) -> Duration {
+            Duration::from_millis(now_ms().saturating_sub(self.0))
+        }
+    }
+
+    #[derive(Debug)]
+    pub struct Delay {
+        deadline_ms: u64,
+    }
+
+    impl Delay {
+        pub fn new(dur: Duration) -> Delay {
+            Delay {
+                deadline_ms: now_ms() + dur.as_millis() as u64,
+            }
+        }
+
+        pub fn reset(&mut self, dur: Duration) {
+            self.deadline_ms = now_ms() + dur.as_millis() as u64;
+        }
+    }
+
+    impl Future for Delay {
+        type Output = ();
+
+        fn poll(self: Pin<&mut Self>, _cx: &mut Context<'_>) -> Poll<()> {
+            if now_ms() >= self.deadline_ms {
+                Poll::Ready(())
+            } else {
+                Poll::Pending
+            }
+        }
+    }
+}
+
+/// `message::MAX_MESSAGE_SIZE`
+pub const MAX_MESSAGE_SIZE: usize = crate::message::MAX_MESSAGE_SIZE;
+
+/// `Codec::encode`
+pub fn codec_encode(msg: &proto::Message, dst: &mut BytesMut) -> io::Result<()> {
+    Codec.encode(msg, dst)
+}
+
+/// `Codec::decode`
+pub fn codec_decode(src: &mut BytesMut) -> io::Result<Option<proto::Message>> {
+    Codec.decode(src)
+}
+
+/// `message::new_want_have_entry`, `new_want_block_entry`, `new_cancel_entry`
+pub fn new_entries<const S: usize>(
+    cid: &CidGeneric<S>,
+    set_send_dont_have: bool,
+) -> [proto::mod_Message::mod_Wantlist::Entry; 3] {
+    [
+        crate::message::new_want_have_entry(cid, set_send_dont_have),
+        crate::message::new_want_block_entry(cid, set_send_dont_have),
+        crate::message::new_cancel_entry(cid),
+    ]
+}
+
+/// `CidPrefix`
+#[derive(Debug, Clone, PartialEq, Eq)]
+pub struct Prefix(CidPrefix);
+
+impl Prefix {
+    pub fn from_cid<const S: usize>(cid: &CidGeneric<S>) -> Prefix {
+        Prefix(CidPrefix::from_cid(cid))
+    }
+
+    pub fn from_bytes(bytes: &[u8]) -> Option<Prefix> {
+        CidPrefix::from_bytes(bytes).map(Prefix)
+    }
+
+    pub fn to_bytes(&self) -> Vec<u8> {
+        self.0.to_bytes()
+    }
+
+    pub async fn to_cid<const S: usize>(
+        &self,
+        hasher: &HasherTable<S>,
+        data: &[u8],
+    ) -> Result<CidGeneric<S>, MultihasherError> {
+        self.0.to_cid(&hasher.0, data).await
+    }
+
+    pub fn multihash_code(&self) -> u64 {
+        self.0.multihash_code()
+    }
+
+    pub fn debug(&self) -> String {
+        format!("{:?}", self.0)
+    }
+}
+
+/// `MultihasherTable`
+pub struct HasherTable<const S: usize>(Arc<MultihasherTable<S>>);
+
+impl<const S: usize> Clone for HasherTable<S> {
+    fn clone(&self) -> Self {
+        HasherTable(self.0.clone())
+    }
+}
+
+impl<const S: usize> HasherTable<S> {
+    /// `MultihasherTable::new` followed by `register` of each of `hashers` in order.
+    pub fn new<M>(hashers: Vec<M>) -> Self
+    where
+        M: Multihasher<S> + Send + Sync + 'static,
+    {
+        let mut table = MultihasherTable::new();
+        for h in hashers {
+            table.register(h);
+        }
+        HasherTable(Arc::new(table))
+    }
+
+    pub async fn hash(&self, code: u64, input: &[u8]) -> Result<Multihash<S>, MultihasherError> {
+        self.0.hash(code, input).await
+    }
+}
+
+/// Plain-data view of an `IncomingMessage`.
+#[derive(Debug, Clone, Default, PartialEq)]
+pub struct IncomingParts<const S: usize> {
+    /// `client.block_presences` (`true` = HAVE), `None` if there is no client part
+    pub presences: Option<Vec<(CidGeneric<S>, bool)>>,
+    /// `client.blocks`
+    pub blocks: Option<Vec<(CidGeneric<S>, Vec<u8>)>>,
+    /// `server.wantlist`
+    pub wantlist: Option<proto::mod_Message::Wantlist>,
+}
+
+/// Destructure an `IncomingMessage`.
+pub fn incoming_parts<const S: usize>(msg: &IncomingMessage<S>) -> IncomingParts<S> {
+    use proto::mod_Message::BlockPresenceType;
+
+    IncomingParts {
+        presences: msg.client.as_ref().map(|c| {
+            c.block_presences
+                .iter()
+                .map(|(cid, t)| (*cid, *t == BlockPresenceType::Have))
+                .collect()
+        }),
+        blocks: msg
+            .client
+            .as_ref()
+            .map(|c| c.blocks.iter().map(|(c, d)| (*c, d.clone())).collect()),
+        wantlist: msg.server.as_ref().map(|s| s.wantlist.clone()),
+    }
+}
+
+/// Build an `IncomingMessage` the way `process_message` would for already validated parts.
+pub fn incoming_from_parts<const S: usize>(parts: IncomingParts<S>) -> IncomingMessage<S> {
+    use proto::mod_Message::BlockPresenceType;
+
+    let mut msg = IncomingMessage::default();
+
+    if parts.presences.is_some() || parts.blocks.is_some() {
+        let mut client = ClientMessage::default();
+        for (cid, have) in parts.presences.unwrap_or_default() {
+            let t = if have {
+                BlockPresenceType::Have
+            } else {
+                BlockPresenceType::DontHave
+            };
+            client.block_presences.insert(cid, t);
+        }
+        for (cid, data) in parts.blocks.unwrap_or_default() {
+            client.blocks.insert(cid, data);
+        }
+        msg.client = Some(client);
+    }
+
+    if let Some(wantlist) = parts.wantlist {
+        msg.server = Some(ServerMessage { wantlist });
+    }
+
+    msg
+}
+
+/// `incoming_stream::process_message`
+pub async fn process_message<const S: usize>(
+    hasher: &HasherTable<S>,
+    msg: proto::Message,
+) -> Option<IncomingMessage<S>> {
+    incoming::process_message(hasher.0.clone(), msg).await
+}
+
+/// `IncomingStream::new`, boxed as a stream of messages
+pub fn incoming_stream<const S: usize>(
+    stream: RawStream,
+    hasher: &HasherTable<S>,
+) -> impl futures_core::stream::Stream<Item = IncomingMessage<S>> + Unpin {
+    IncomingStream::new(stream, hasher.0.clone())
+}
+
+/// What `ConnectionEvent::FullyNegotiatedOutbound` does with `StreamRequester::Client`
+pub fn handler_set_client_stream<const S: usize>(handler: &mut ConnHandler<S>, stream: RawStream) {
+    handler.client_handler.set_stream(stream)
+}
+
+/// What `ConnectionEvent::FullyNegotiatedOutbound` does with `StreamRequester::Server`
+pub fn handler_set_server_stream<const S: usize>(handler: &mut ConnHandler<S>, stream: RawStream) {
+    handler.server_handler.set_stream(stream)
+}
+
+/// What `ConnectionEvent::DialUpgradeError` does with `StreamRequester::Client`
+pub fn handler_client_stream_failed<const S: usize>(handler: &mut ConnHandler<S>) {
+    handler.client_handler.stream_allocation_failed()
+}
+
+/// What `ConnectionEvent::FullyNegotiatedInbound` does
+pub fn handler_push_inbound_stream<const S: usize>(handler: &mut ConnHandler<S>, stream: RawStream) {
+    let stream = IncomingStream::new(stream, handler.multihasher.clone());
+    handler.incoming_streams.push(stream);
+}
+
+/// Number of inbound streams that are still alive
+pub fn handler_inbound_streams<const S: usize>(handler: &ConnHandler<S>) -> usize {
+    handler.incoming_streams.len()
+}
+
+/// Snapshot of the client half of `Behaviour`
+pub fn client_snapshot<const S: usize, B>(b: &crate::Behaviour<S, B>) -> client::Snapshot<S>
+where
+    B: blockstore::Blockstore + 'static,
+{
+    client::snapshot(&b.client)
+}
+
+/// Snapshot of the server half of `Behaviour`
+pub fn server_snapshot<const S: usize, B>(b: &crate::Behaviour<S, B>) -> server::Snapshot<S>
+where
+    B: blockstore::Blockstore + 'static,
+{
+    server::snapshot(&b.server)
+}
+
+/// `Behaviour::protocol`
+pub fn behaviour_protocol<const S: usize, B>(b: &crate::Behaviour<S, B>) -> String
+where
+    B: blockstore::Blockstore + 'static,
+{
+    b.protocol.to_string()
+}
+
+/// Snapshot of the client half of a `ConnHandler`
+pub fn client_handler_snapshot<const S: usize>(h: &ConnHandler<S>) -> client::HandlerSnapshot {
+    client::handler_snapshot(&h.client_handler)
+}
+
+/// Snapshot of the server half of a `ConnHandler`
+pub fn server_handler_snapshot<const S: usize>(h: &ConnHandler<S>) -> server::HandlerSnapshot {
+    server::handler_snapshot(&h.server_handler)
+}
